@@ -52,6 +52,8 @@ func runC17(c *Ctx) {
 	}
 	c17R1(c, p, "default")
 	c17R2(c, p)
+	c17R3(c, p)
+	c17R4(c, p)
 	if c.Tier == "thorough" {
 		if t := c.need("tuner"); t != nil {
 			c17R1(c, t, "tuner")
@@ -161,8 +163,6 @@ func isInitName(fn string) bool {
 	n := fn[i+1:]
 	return n == "init" || strings.HasPrefix(n, "init#") || strings.HasPrefix(n, "init$")
 }
-
-func c17R2(c *Ctx, p *Prog) {}
 
 // wholeCopyEscapes: does the struct value loaded by in flow anywhere but field
 // selections and calls of chess-3 functions? Returns a description or "".
